@@ -27,6 +27,13 @@ func Subscribe() *ControlChans {
 		PauseCh:  make(chan struct{}, 1), // Buffered to ensure non-blocking sends
 		ResumeCh: make(chan struct{}),    // Unbuffered, will block on send
 	}
+	// A subscriber joining while the pipeline is paused starts paused: without the signal it would
+	// keep working, and Resume would wait forever for an acknowledgement it never sends.
+	manager.mu.Lock()
+	defer manager.mu.Unlock()
+	if manager.isPaused.Load() {
+		chans.PauseCh <- struct{}{}
+	}
 	manager.subscribers.Store(chans, struct{}{})
 	return chans
 }
